@@ -130,6 +130,7 @@ pub fn stages(id: &str) -> Vec<Stage> {
         "C06" => vec![
             st(C06 { params: Params::conflict_heavy(), stage: "main", repeats: 4 }, 6_000, 200_000, Release),
             st(C06 { params: Params::default().with_soft(2, 150).with_big_unions(60), stage: "rich", repeats: 4 }, 4_000, 150_000, Release),
+            st(C06 { params: Params::huge_package(400).with_soft(2, 100), stage: "huge", repeats: 3 }, 200, 4_000, Release),
         ],
         "C07" => vec![
             st(C07 { params: Params::default().with_big_unions(40), stage: "main" }, 20_000, 800_000, Release),
@@ -153,9 +154,10 @@ pub fn stages(id: &str) -> Vec<Stage> {
         "C11" => vec![
             st(C11 { params: Params::fanout().with_soft(2, 150), stage: "main" }, 15_000, 500_000, Release),
             st(C11 { params: Params::wide(), stage: "wide" }, 400, 8_000, Release),
+            st(C11 { params: Params::huge_package(3000).hint_heavy(), stage: "huge" }, 20, 400, Release),
         ],
         "C12" => vec![
-            st(C12 { params: Params::conflict_heavy().with_soft(2, 100).with_big_unions(150), stage: "main", max_indices: 48, conflict_free: false }, 1_500, 0, Release),
+            st(C12 { params: Params::conflict_heavy().with_soft(2, 100).with_big_unions(150).with_giant_unions(12), stage: "main", max_indices: 48, conflict_free: false }, 1_500, 0, Release),
             st(C12 { params: Params::conflict_heavy().with_soft(2, 100), stage: "all-indices", max_indices: 0, conflict_free: false }, 0, 40_000, Release),
             st(C12 { params: Params::wide_root(), stage: "wide-root", max_indices: 64, conflict_free: true }, 3, 60, Release),
         ],
